@@ -2,7 +2,12 @@
 """Build seeded/<id>/meta.json (from the author's meta + our confirmation run) and seeded/SUMMARY.md."""
 import json, os, re, glob
 root = '/verif/seeded'
-src = {'M1': '/tmp/mutout/M1', 'M2': '/tmp/mutout/M2', 'M3': '/tmp/mutout/M3', 'M4': '/tmp/mutout/M4', 'M5': '/tmp/mutout/M5', 'M6': '/tmp/mutout/M6'}
+suite = {}
+sp = root + '/SUITE.md'
+if os.path.exists(sp):
+    for m in re.finditer(r'^\| (M\d-C\d+-\d) \| (.*?) \|$', open(sp).read(), re.M):
+        suite[m.group(1)] = m.group(2)
+src = {'M7': '/tmp/mutout/M7', 'M1': '/tmp/mutout/M1', 'M2': '/tmp/mutout/M2', 'M3': '/tmp/mutout/M3', 'M4': '/tmp/mutout/M4', 'M5': '/tmp/mutout/M5', 'M6': '/tmp/mutout/M6'}
 rows = []
 for d in sorted(glob.glob(root + '/*/')):
     name = os.path.basename(d.rstrip('/'))
@@ -12,7 +17,9 @@ for d in sorted(glob.glob(root + '/*/')):
     g, rest = name.split('-', 1)
     author = {}
     ap = os.path.join(src.get(g, ''), rest, 'meta.json')
-    if os.path.exists(ap):
+    if os.path.exists(os.path.join(d, 'agent-meta.json')):
+        author = json.load(open(os.path.join(d, 'agent-meta.json')))
+    elif os.path.exists(ap):
         try:
             author = json.load(open(ap))
         except Exception:
@@ -20,6 +27,9 @@ for d in sorted(glob.glob(root + '/*/')):
     elif os.path.exists(os.path.join(d, 'meta.json')):
         author = json.load(open(os.path.join(d, 'meta.json')))
     txt = open(res).read()
+    dc = os.path.join(d, 'demo-confirm.txt')
+    if os.path.exists(dc) and 'demo-on-patched' not in txt:
+        txt += open(dc).read()
     checks = {}
     for m in re.finditer(r'^check (C\d+): exit=(\d+)', txt, re.M):
         checks[m.group(1)] = int(m.group(2))
@@ -31,10 +41,10 @@ for d in sorted(glob.glob(root + '/*/')):
         'author_existing_tests': author.get('existing_tests', ''),
         'confirmed': {
             'applies_and_builds': 'apply: ok' in txt and 'build: ok' in txt,
-            'existing_suite': ('pass' if 'existing-suite: pass' in txt else ('fail' if 'existing-suite: FAIL' in txt else 'see seeded/SUITE.md (run per group with all patches of the group applied)')),
+            'existing_suite': suite.get(name, 'pass' if 'existing-suite: pass' in txt else ('fail' if 'existing-suite: FAIL' in txt else 'not run by me; author: ' + str(author.get('existing_tests', ''))[:160])),
             'demo_fails_with_patch': 'demo-on-patched: fails' in txt if 'demo-on-patched' in txt else 'manual demo, see demo/RUN.md',
             'demo_passes_without': 'demo-on-unchanged: passes' in txt if 'demo-on-unchanged' in txt else 'manual demo, see demo/RUN.md',
-            'ran': 'tools/seedtest.sh: git apply in a scratch worktree of /repo HEAD, go build ./..., demo/run.sh on patched and unchanged tree, VERIF_REPO=<worktree> ./check <id> quick',
+            'ran': 'tools/seedsuite.py (repository suite on the patched tree, patches with disjoint files grouped); tools/seedtest.sh: git apply in a scratch worktree of /repo HEAD, go build ./..., demo/run.sh (or tools/seeddemo.py for demonstrations given as an in-package Go test / main.go) on patched and unchanged tree, VERIF_REPO=<worktree> ./check <id> quick',
         },
         'checks_run': checks,
         'caught_by': caught,
@@ -43,10 +53,10 @@ for d in sorted(glob.glob(root + '/*/')):
     rows.append((name, meta))
 with open(os.path.join(root, 'SUMMARY.md'), 'w') as f:
     f.write('# Seeded changes (written by independent sub-agents that saw only the property text)\n\n')
-    f.write('| id | property | defect | needs | checks run (exit) | caught by |\n|---|---|---|---|---|---|\n')
+    f.write('| id | property | defect | needs | existing suite | checks run (exit) | caught by |\n|---|---|---|---|---|---|---|\n')
     for name, m in rows:
         what = (m['what'] or '').replace('\n', ' ').replace('|', '/')[:220]
         needs = (m['needs'] or '').replace('\n', ' ').replace('|', '/')[:140]
         cr = ', '.join(f'{c}:{rc}' for c, rc in m['checks_run'].items())
-        f.write(f"| {name} | {m['property']} | {what} | {needs} | {cr} | {', '.join(m['caught_by']) or '**missed**'} |\n")
+        f.write(f"| {name} | {m['property']} | {what} | {needs} | {str(m['confirmed']['existing_suite'])[:40]} | {cr} | {', '.join(m['caught_by']) or '**missed**'} |\n")
 print(len(rows), 'seeded changes;', sum(1 for _, m in rows if m['caught_by']), 'caught')
